@@ -247,8 +247,15 @@ def gen_program(r: Rng, size=30, sp=None, allow_undefined=False, stdout_writes=T
         for ad in sorted(reads):
             body.op("LDAC", r.choice([0, 0, 1, 7, ad])); body.op("STAM", ad)
     body.b += main
-    # exit
-    body.op("LDAC", r.choice([0, 1, 42, 255, 256, -1, r.word()])); body.op("LDBM", 1); body.op("STAI", 2)
+    # exit: with a constant, or with a checksum of the registers and of the scratch words the program used (so that a wrong
+    # load, store or address anywhere in the run reaches the exit value)
+    if r.chance(1, 3):
+        body.op("LDAC", r.choice([0, 1, 42, 255, 256, -1, r.word()]))
+    else:
+        body.opr(1)
+        for ad in sorted(reads)[:8]:
+            body.op("LDBM", ad); body.opr(1)
+    body.op("LDBM", 1); body.op("STAI", 2)
     body.op("LDAC", 0); body.opr(3)
     code = [0x97, 0, 0, 0] + list(sp.to_bytes(4, "little")) + body.b
     while len(code) % 4:
@@ -270,10 +277,11 @@ def image_file(code, debug=None):
 
 
 def run_case(r: Rng, tracing=0, max_cycles=0, fill=0, size=None, debug=False, trunc=None, allow_undefined=False, stdout_writes=True, read_unwritten=False, init_reads=False):
-    code = gen_program(r, size if size is not None else 5 + r.below(40), allow_undefined=allow_undefined, stdout_writes=stdout_writes, read_unwritten=read_unwritten, init_reads=init_reads)
+    many = debug and size is None and r.chance(1, 10)      # a symbol table with more than 255 entries
+    code = gen_program(r, size if size is not None else (150 if many else 5 + r.below(40)), allow_undefined=allow_undefined, stdout_writes=stdout_writes, read_unwritten=read_unwritten, init_reads=init_reads)
     dbg = None
     if debug:
-        n = 1 + r.below(4)
+        n = r.choice([255, 256, 257, 300]) if many else 1 + r.below(4)
         offs = sorted(set(r.below(len(code)) for _ in range(n)))
         # names of every length (the trace label is "<name>+<offset>" whatever its width)
         dbg = [(r.choice(["main", "f", "g", "put", "x1", "countdownandsum", "a_procedure_with_a_long_name", "q" * (1 + r.below(60))])
